@@ -1,14 +1,18 @@
 /-
 C22 — reachability in the alias-flow graph extracted from /repo by the `effects` translator.  No Mathlib.
 
-The graph is a list of successor lists, indexed by node id (a `List`, not an `Array`: the kernel evaluates
-structural list recursion quickly, `Array` loops are well-founded recursion and very slow under `decide +kernel`).  `Reaches` is the mathematical notion (reflexive
-transitive closure of the edge relation).  `reachable` computes a set of nodes by a fuelled worklist search;
-the two facts used by Props/C22.lean are proved here for EVERY graph:
-  * `reaches_of_mem_reachable` : whatever the search returns is really reachable (used for counter-examples);
-  * `mem_of_reaches_closed`    : a node list that contains the source and is closed under successors contains
-                                 everything reachable (used for the absence theorem — so the fuel never has
-                                 to be trusted: closure is re-checked by `decide`).
+The graph is a list of successor lists indexed by node id (a `List`, not an `Array`: the kernel evaluates
+structural list recursion quickly, `Array` loops are well-founded recursion and very slow under
+`decide +kernel`).  The set of expanded nodes is a bit mask in a `Nat` (`testBit`, `|||`, `<<<` are evaluated
+by the kernel's big-number arithmetic), so one search costs a few thousand kernel steps.
+
+`Reaches` is the mathematical notion (reflexive transitive closure of the edge relation).  Proved here for
+EVERY graph:
+  * `reaches_of_search`   : every node in the mask returned by the search is really reachable
+                            (used for counter-examples);
+  * `allReached_spec`     : when the search finishes with an empty worklist (it returns `none` if the fuel
+                            runs out, so the fuel never has to be trusted) its mask contains everything
+                            reachable from the sources (used for the absence theorems).
 -/
 namespace VtlModel.Tables.Flow
 
@@ -20,91 +24,205 @@ inductive Reaches (g : Graph) : Nat → Nat → Prop
   | refl (n : Nat) : Reaches g n n
   | step {a b c : Nat} : Reaches g a b → c ∈ succs g b → Reaches g a c
 
-/-- worklist search: `todo` = nodes still to expand, `vis` = nodes already expanded -/
-def search (g : Graph) : Nat → List Nat → List Nat → List Nat
-  | 0, todo, vis => todo ++ vis
-  | _ + 1, [], vis => vis
+/-- bit-mask sets of node ids -/
+def mem (vis : Nat) (x : Nat) : Bool := vis.testBit x
+def ins (vis : Nat) (n : Nat) : Nat := vis ||| (1 <<< n)
+
+theorem mem_ins (vis n x : Nat) : mem (ins vis n) x = (mem vis x || decide (n = x)) := by
+  unfold mem ins
+  rw [Nat.testBit_or, Nat.one_shiftLeft, Nat.testBit_two_pow]
+
+theorem mem_ins_iff (vis n x : Nat) : mem (ins vis n) x = true ↔ (x = n ∨ mem vis x = true) := by
+  rw [mem_ins]
+  simp only [Bool.or_eq_true, decide_eq_true_eq]
+  constructor
+  · rintro (h | h)
+    · exact Or.inr h
+    · exact Or.inl h.symm
+  · rintro (h | h)
+    · exact Or.inr h.symm
+    · exact Or.inl h
+
+theorem mem_zero (x : Nat) : mem 0 x = false := Nat.zero_testBit x
+
+/-- worklist search: `todo` = nodes still to expand, `vis` = mask of the nodes already expanded;
+    `none` when the fuel runs out before the worklist is empty -/
+def search (g : Graph) : Nat → List Nat → Nat → Option Nat
+  | 0, [], vis => some vis
+  | 0, _ :: _, _ => none
+  | _ + 1, [], vis => some vis
   | fuel + 1, n :: rest, vis =>
-    if vis.contains n then search g fuel rest vis
-    else search g fuel (succs g n ++ rest) (n :: vis)
+    if mem vis n then search g fuel rest vis
+    else search g fuel (succs g n ++ rest) (ins vis n)
 
 def edgeCount (g : Graph) : Nat := g.foldl (fun acc l => acc + l.length) 0
 
-/-- every step either drops a todo entry or expands a new node: size + edges + 1 steps suffice -/
+/-- every step either drops a todo entry or expands a new node: nodes + edges + sources + 1 steps suffice -/
 def fuelFor (g : Graph) (k : Nat) : Nat := g.length + edgeCount g + k + 1
 
-def reachableFrom (g : Graph) (srcs : List Nat) : List Nat := search g (fuelFor g srcs.length) srcs []
-
-def reachable (g : Graph) (src : Nat) : List Nat := reachableFrom g [src]
-
-/-- closed under successors -/
-def closed (g : Graph) (r : List Nat) : Bool := r.all (fun n => (succs g n).all (fun m => r.contains m))
+def closureOf (g : Graph) (srcs : List Nat) : Option Nat := search g (fuelFor g srcs.length) srcs 0
 
 /-- all successor ids are node ids of the graph -/
 def wellFormed (g : Graph) : Bool := g.all (fun l => l.all (fun m => m < g.length))
 
+/-- the search completes and every candidate node that it reached satisfies `p` -/
+def allReached (g : Graph) (srcs : List Nat) (cands : List Nat) (p : Nat → Bool) : Bool :=
+  match closureOf g srcs with
+  | some r => cands.all (fun m => !mem r m || p m)
+  | none => false
+
+/-- the search completes and reaches one of the candidates -/
+def someReached (g : Graph) (srcs : List Nat) (cands : List Nat) : Bool :=
+  match closureOf g srcs with
+  | some r => cands.any (fun m => mem r m)
+  | none => false
+
+/-! ### soundness: what the search marks is reachable -/
 theorem search_sound (g : Graph) (P : Nat → Prop) (hstep : ∀ b c, P b → c ∈ succs g b → P c) :
-    ∀ (fuel : Nat) (todo vis : List Nat), (∀ x ∈ todo, P x) → (∀ x ∈ vis, P x) →
-      ∀ x ∈ search g fuel todo vis, P x := by
+    ∀ (fuel : Nat) (todo : List Nat) (vis r : Nat), (∀ x ∈ todo, P x) → (∀ x, mem vis x = true → P x) →
+      search g fuel todo vis = some r → ∀ x, mem r x = true → P x := by
   intro fuel
   induction fuel with
   | zero =>
-    intro todo vis ht hv x hx
-    simp only [search, List.mem_append] at hx
-    rcases hx with hx | hx
-    · exact ht x hx
-    · exact hv x hx
-  | succ fuel ih =>
-    intro todo vis ht hv x hx
+    intro todo vis r _ hv h x hx
     cases todo with
-    | nil => simp only [search] at hx; exact hv x hx
+    | nil => simp only [search, Option.some.injEq] at h; subst h; exact hv x hx
+    | cons n rest => simp [search] at h
+  | succ fuel ih =>
+    intro todo vis r ht hv h x hx
+    cases todo with
+    | nil => simp only [search, Option.some.injEq] at h; subst h; exact hv x hx
     | cons n rest =>
-      simp only [search] at hx
-      split at hx
-      · exact ih rest vis (fun y hy => ht y (List.mem_cons_of_mem _ hy)) hv x hx
+      simp only [search] at h
+      split at h
+      · exact ih rest vis r (fun y hy => ht y (List.mem_cons_of_mem _ hy)) hv h x hx
       · have hn : P n := ht n (List.mem_cons_self ..)
-        refine ih (succs g n ++ rest) (n :: vis) ?_ ?_ x hx
+        refine ih (succs g n ++ rest) (ins vis n) r ?_ ?_ h x hx
         · intro y hy
           rw [List.mem_append] at hy
           rcases hy with hy | hy
           · exact hstep n y hn hy
           · exact ht y (List.mem_cons_of_mem _ hy)
         · intro y hy
-          rw [List.mem_cons] at hy
+          rw [mem_ins_iff] at hy
           rcases hy with rfl | hy
           · exact hn
           · exact hv y hy
 
-/-- the search only returns nodes that are reachable from one of the sources -/
-theorem reaches_of_mem_reachableFrom (g : Graph) (srcs : List Nat) (x : Nat)
-    (h : x ∈ reachableFrom g srcs) : ∃ s ∈ srcs, Reaches g s x := by
-  refine search_sound g (fun y => ∃ s ∈ srcs, Reaches g s y) ?_ _ srcs [] ?_ ?_ x h
+theorem reaches_of_search (g : Graph) (srcs : List Nat) (r x : Nat) (h : closureOf g srcs = some r)
+    (hx : mem r x = true) : ∃ s ∈ srcs, Reaches g s x := by
+  refine search_sound g (fun y => ∃ s ∈ srcs, Reaches g s y) ?_ _ srcs 0 r ?_ ?_ h x hx
   · intro b c ⟨s, hs, hr⟩ hc
     exact ⟨s, hs, .step hr hc⟩
   · intro y hy
     exact ⟨y, hy, .refl y⟩
-  · intro y hy; cases hy
+  · intro y hy; rw [mem_zero] at hy; cases hy
 
-theorem reaches_of_mem_reachable (g : Graph) (src x : Nat) (h : x ∈ reachable g src) : Reaches g src x := by
-  obtain ⟨s, hs, hr⟩ := reaches_of_mem_reachableFrom g [src] x h
-  rw [List.mem_singleton] at hs
-  subst hs; exact hr
+theorem someReached_spec (g : Graph) (srcs cands : List Nat) (h : someReached g srcs cands = true) :
+    ∃ s ∈ srcs, ∃ m ∈ cands, Reaches g s m := by
+  unfold someReached at h
+  split at h
+  · rename_i r hr
+    rw [List.any_eq_true] at h
+    obtain ⟨m, hm, hmem⟩ := h
+    obtain ⟨s, hs, hreach⟩ := reaches_of_search g srcs r m hr hmem
+    exact ⟨s, hs, m, hm, hreach⟩
+  · cases h
 
-/-- a successor-closed list that contains the source contains everything reachable from it -/
-theorem mem_of_reaches_closed (g : Graph) (r : List Nat) (hc : closed g r = true) (src x : Nat)
-    (hs : src ∈ r) (h : Reaches g src x) : x ∈ r := by
-  induction h with
-  | refl => exact hs
-  | step _ hcb ih =>
-    unfold closed at hc
-    rw [List.all_eq_true] at hc
-    have h1 := hc _ ih
-    rw [List.all_eq_true] at h1
-    have h2 := h1 _ hcb
-    simpa using h2
+/-! ### completeness: a finished search contains everything reachable -/
+theorem search_complete (g : Graph) (P : Nat → Prop) :
+    ∀ (fuel : Nat) (todo : List Nat) (vis r : Nat),
+      (∀ v, mem vis v = true → ∀ m ∈ succs g v, mem vis m = true ∨ m ∈ todo) →
+      (∀ x, P x → mem vis x = true ∨ x ∈ todo) →
+      search g fuel todo vis = some r →
+      (∀ v, mem r v = true → ∀ m ∈ succs g v, mem r m = true) ∧ (∀ x, P x → mem r x = true) := by
+  intro fuel
+  induction fuel with
+  | zero =>
+    intro todo vis r hinv hp h
+    cases todo with
+    | nil =>
+      simp only [search, Option.some.injEq] at h; subst h
+      refine ⟨fun v hv m hm => ?_, fun x hx => ?_⟩
+      · rcases hinv v hv m hm with h1 | h1
+        · exact h1
+        · cases h1
+      · rcases hp x hx with h1 | h1
+        · exact h1
+        · cases h1
+    | cons n rest => simp [search] at h
+  | succ fuel ih =>
+    intro todo vis r hinv hp h
+    cases todo with
+    | nil =>
+      simp only [search, Option.some.injEq] at h; subst h
+      refine ⟨fun v hv m hm => ?_, fun x hx => ?_⟩
+      · rcases hinv v hv m hm with h1 | h1
+        · exact h1
+        · cases h1
+      · rcases hp x hx with h1 | h1
+        · exact h1
+        · cases h1
+    | cons n rest =>
+      simp only [search] at h
+      split at h
+      · rename_i hn
+        refine ih rest vis r ?_ ?_ h
+        · intro v hv m hm
+          rcases hinv v hv m hm with h1 | h1
+          · exact Or.inl h1
+          · rw [List.mem_cons] at h1
+            rcases h1 with rfl | h1
+            · exact Or.inl hn
+            · exact Or.inr h1
+        · intro x hx
+          rcases hp x hx with h1 | h1
+          · exact Or.inl h1
+          · rw [List.mem_cons] at h1
+            rcases h1 with rfl | h1
+            · exact Or.inl hn
+            · exact Or.inr h1
+      · refine ih (succs g n ++ rest) (ins vis n) r ?_ ?_ h
+        · intro v hv m hm
+          rw [mem_ins_iff] at hv
+          rcases hv with rfl | hv
+          · exact Or.inr (List.mem_append_left _ hm)
+          · rcases hinv v hv m hm with h1 | h1
+            · exact Or.inl ((mem_ins_iff ..).mpr (Or.inr h1))
+            · rw [List.mem_cons] at h1
+              rcases h1 with rfl | h1
+              · exact Or.inl ((mem_ins_iff ..).mpr (Or.inl rfl))
+              · exact Or.inr (List.mem_append_right _ h1)
+        · intro x hx
+          rcases hp x hx with h1 | h1
+          · exact Or.inl ((mem_ins_iff ..).mpr (Or.inr h1))
+          · rw [List.mem_cons] at h1
+            rcases h1 with rfl | h1
+            · exact Or.inl ((mem_ins_iff ..).mpr (Or.inl rfl))
+            · exact Or.inr (List.mem_append_right _ h1)
+
+theorem mem_closureOf (g : Graph) (srcs : List Nat) (r : Nat) (h : closureOf g srcs = some r)
+    (s x : Nat) (hs : s ∈ srcs) (hr : Reaches g s x) : mem r x = true := by
+  have hc := search_complete g (fun y => y ∈ srcs) _ srcs 0 r
+    (fun v hv => by rw [mem_zero] at hv; cases hv) (fun y hy => Or.inr hy) h
+  induction hr with
+  | refl => exact hc.2 s hs
+  | step _ hcb ih => exact hc.1 _ ih _ hcb
+
+theorem allReached_spec (g : Graph) (srcs cands : List Nat) (p : Nat → Bool)
+    (h : allReached g srcs cands p = true)
+    (s x : Nat) (hs : s ∈ srcs) (hx : x ∈ cands) (hr : Reaches g s x) : p x = true := by
+  unfold allReached at h
+  split at h
+  · rename_i r hr'
+    rw [List.all_eq_true] at h
+    have h1 := h x hx
+    have h2 := mem_closureOf g srcs r hr' s x hs hr
+    simpa [h2] using h1
+  · cases h
 
 /-- breadth-first search for one shortest path (for explanations; not used in proofs) -/
-def pathLoop (g : Graph) (dst : Nat) : Nat → List (List Nat) → List Nat → Option (List Nat)
+def pathLoop (g : Graph) (dst : Nat) : Nat → List (List Nat) → Nat → Option (List Nat)
   | 0, _, _ => none
   | _ + 1, [], _ => none
   | fuel + 1, p :: rest, vis =>
@@ -112,10 +230,10 @@ def pathLoop (g : Graph) (dst : Nat) : Nat → List (List Nat) → List Nat → 
     | [] => pathLoop g dst fuel rest vis
     | n :: _ =>
       if n = dst then some p.reverse
-      else if vis.contains n then pathLoop g dst fuel rest vis
-      else pathLoop g dst fuel (rest ++ (succs g n).map (fun m => m :: p)) (n :: vis)
+      else if mem vis n then pathLoop g dst fuel rest vis
+      else pathLoop g dst fuel (rest ++ (succs g n).map (fun m => m :: p)) (ins vis n)
 
 def path (g : Graph) (src dst : Nat) : Option (List Nat) :=
-  pathLoop g dst (fuelFor g 1 + g.length) [[src]] []
+  pathLoop g dst (fuelFor g 1 + g.length) [[src]] 0
 
 end VtlModel.Tables.Flow
